@@ -68,6 +68,7 @@ type Contracts struct {
 	Specs  map[string]*SpecFunc
 	SMT    map[string][]string // mode ("int","bv","any") -> raw prelude lines
 	Lemmas []*Lemma
+	Axioms map[string]*Clause // named global axioms (verif:axiom name: expr), assumed by functions that list them under uses=
 	NonNil map[string]bool // typeIDs declared never-nil (verif:nonnil)
 	Frozen map[string]bool // pkg.Type.field assumed never written after construction (verif:frozen)
 	Errs   []string
@@ -290,6 +291,24 @@ func (c *Contracts) LoadFile(path, source string) error {
 					}
 					c.Frozen[fields[1]] = true
 				}
+				curF, curL, curLemma = nil, nil, nil
+			case "axiom":
+				// axiom name: <closed formula over spec functions> -- a definitional axiom (trusted, listed in evidence)
+				rest := strings.TrimSpace(strings.TrimPrefix(raw, "// verif:axiom"))
+				m := labelRe.FindStringSubmatch(rest)
+				if m == nil {
+					c.errf(path, line, "verif:axiom needs 'name: formula'")
+					continue
+				}
+				e, err := ParseExpr(m[2])
+				if err != nil {
+					c.errf(path, line, "%v", err)
+					continue
+				}
+				if c.Axioms == nil {
+					c.Axioms = map[string]*Clause{}
+				}
+				c.Axioms[m[1]] = &Clause{Kind: "axiom", Label: m[1], Text: m[2], E: e, File: path, Line: line}
 				curF, curL, curLemma = nil, nil, nil
 			case "lemma":
 				// lemma name [arith=..] ; then //@ vars x T, y T ; requires/ensures
